@@ -188,8 +188,8 @@ fn tips_for(rng: &mut ChaCha20Rng, sec: u64, step: u64, n: usize) -> Vec<u64> {
     let base = match rnd::below(rng, 6) {
         0 => mix(rng, TIP_CAP),
         1 => sec.saturating_sub(rnd::below(rng, 3)),
-        2 => (sec + step.max(15)).saturating_sub(rnd::below(rng, 20)),
-        3 => sec + step.max(1).saturating_mul(rnd::below(rng, 1 << 20)).min(TIP_CAP / 2),
+        2 => sec.saturating_add(step.max(15)).saturating_sub(rnd::below(rng, 20)),
+        3 => sec.saturating_add(step.max(1).saturating_mul(rnd::below(rng, 1 << 20)).min(TIP_CAP / 2)),
         4 => rnd::below(rng, 2000),
         _ => rnd::below(rng, TIP_CAP),
     }
@@ -218,7 +218,22 @@ fn random_shard(shard: u64, mon: &mut Monitor, configs: u64, keep_distinct: u64)
     let mut rng = mon.rng("random", shard);
     let mut kept = 0u64;
     for i in 0..configs {
-        let sec = mix(&mut rng, PARAM_CAP);
+        // one configuration in eight has a security parameter far above any tip (the statement's
+        // "values larger than the tip"): around 2^63 (where a signed conversion would wrap), next to
+        // u64::MAX (a "never certify" setting), or uniform above 2^40; the selection must then be 0
+        let sec = if rnd::below(&mut rng, 8) == 0 {
+            match rnd::below(&mut rng, 4) {
+                0 => ((1u64 << 63) + rnd::below(&mut rng, 3)).saturating_sub(1),
+                1 => u64::MAX - rnd::below(&mut rng, 17),
+                2 => (1u64 << (41 + rnd::below(&mut rng, 23))) + rnd::below(&mut rng, 16),
+                _ => rng.next_u64() | (1 << 40),
+            }
+        } else {
+            mix(&mut rng, PARAM_CAP)
+        };
+        if sec > PARAM_CAP {
+            mon.count("random:configurations_with_a_security_parameter_above_2^40");
+        }
         let step = mix(&mut rng, PARAM_CAP);
         let tips = tips_for(&mut rng, sec, step, 8);
         for kind in [Kind::Tx, Kind::Blk] {
@@ -608,7 +623,7 @@ fn main() {
     vcore::run_shards(&mut mon, shards, threads, |s, m| agreement_shard(s, m, cases, keep));
 
     mon.finish(
-        "EXHAUSTIVE only on the grid sub-space (tip 0..=700 x 14 security parameters x 15 steps x both entity kinds, all successive-tip pairs, each point observed at compute_block_number_to_be_signed and through time_point_to_signed_entity); SAMPLED elsewhere: seeded random configurations (security parameter, step <= 2^40 from a mixture of small values, neighbours of multiples of 15, neighbours of powers of two, uniform) each with a run of 8 non-decreasing tips <= 2^62 placed around sec, sec+step, multiples of the step or uniform; and seeded purity/agreement cases (random allowed-discriminant subsets, present/absent signing configurations, epochs incl. 0, runs of 4 successive time points, all 5 discriminants; configuration built directly vs rebuilt from its JSON wire form; repeated and interleaved calls; list_allowed_signed_entity_types vs per-discriminant conversion). Oracle in i128: sel <= max(tip-sec,0); sel non-decreasing in the tip; blocks entity sel = n*max(step,1); transactions entity (sel+1) multiple of 15 once the first step is behind the margin and all selections of a configuration explained by one range-aligned step (configured step rounded down or up to 15, at least 15). Non-trivial = tip beyond the security margin (selection not forced to 0), or an agreement comparison; distinct = distinct (kind, tip, sec, step) / (config, time point, discriminant); to bound memory, random and agreement non-trivial cases are entered into the distinct set only for the first 70k (quick) / 20k (thorough) per shard, the rest is counted in random:nontrivial_not_deduplicated / agreement:nontrivial_not_deduplicated.",
+        "EXHAUSTIVE only on the grid sub-space (tip 0..=700 x 14 security parameters x 15 steps x both entity kinds, all successive-tip pairs, each point observed at compute_block_number_to_be_signed and through time_point_to_signed_entity); SAMPLED elsewhere: seeded random configurations (security parameter, step <= 2^40 - one configuration in eight with a security parameter above 2^40 up to u64::MAX - from a mixture of small values, neighbours of multiples of 15, neighbours of powers of two, uniform) each with a run of 8 non-decreasing tips <= 2^62 placed around sec, sec+step, multiples of the step or uniform; and seeded purity/agreement cases (random allowed-discriminant subsets, present/absent signing configurations, epochs incl. 0, runs of 4 successive time points, all 5 discriminants; configuration built directly vs rebuilt from its JSON wire form; repeated and interleaved calls; list_allowed_signed_entity_types vs per-discriminant conversion). Oracle in i128: sel <= max(tip-sec,0); sel non-decreasing in the tip; blocks entity sel = n*max(step,1); transactions entity (sel+1) multiple of 15 once the first step is behind the margin and all selections of a configuration explained by one range-aligned step (configured step rounded down or up to 15, at least 15). Non-trivial = tip beyond the security margin (selection not forced to 0), or an agreement comparison; distinct = distinct (kind, tip, sec, step) / (config, time point, discriminant); to bound memory, random and agreement non-trivial cases are entered into the distinct set only for the first 70k (quick) / 20k (thorough) per shard, the rest is counted in random:nontrivial_not_deduplicated / agreement:nontrivial_not_deduplicated.",
         &[
             "an error (not a panic) of the Cardano stake distribution conversion at epoch 0 and of the transactions/blocks conversions without signing configuration is legitimate",
             "the direction in which the configured step is rounded to the block-range length is not fixed by the statement: either rounding is accepted if it explains every selection of a configuration",
